@@ -169,7 +169,24 @@ theorem joinReturn?_some {s s' : St} (h : joinReturn? s = some s') :
   split at h
   · rename_i hg
     simp only [Bool.and_eq_true, Bool.not_eq_true', Option.isNone_iff_eq_none] at hg
-    exact ⟨hg.1.1, hg.1.2, hg.2, (Option.some.inj h).symm⟩
+    exact ⟨hg.1.1.1, hg.1.2, hg.2, (Option.some.inj h).symm⟩
+  · cases h
+
+theorem joinReturn?_joiner {s s' : St} (h : joinReturn? s = some s') : s.joiner.isSome = true := by
+  unfold joinReturn? at h
+  split at h
+  · rename_i hg
+    simp only [Bool.and_eq_true] at hg
+    exact hg.1.1.2
+  · cases h
+
+theorem joinHand?_some {s s' : St} {b : Bool} (h : joinHand? s b = some s') :
+    s.sender = false ∧ s.joiner = none ∧ s' = { s with joiner := some b } := by
+  unfold joinHand? at h
+  split at h
+  · rename_i hg
+    simp only [Bool.and_eq_true, Bool.not_eq_true', Option.isNone_iff_eq_none] at hg
+    exact ⟨hg.1, hg.2, (Option.some.inj h).symm⟩
   · cases h
 
 /-! ### `gc` and `clearExec`, field by field -/
@@ -193,6 +210,7 @@ theorem gc_queue (s : St) : (gc s).queue = if freed s = true then [] else s.queu
 @[simp] theorem gc_conc (s : St) : (gc s).conc = s.conc := by rw [gc_eq]; split <;> rfl
 @[simp] theorem gc_sender (s : St) : (gc s).sender = s.sender := by rw [gc_eq]; split <;> rfl
 @[simp] theorem gc_joined (s : St) : (gc s).joined = s.joined := by rw [gc_eq]; split <;> rfl
+@[simp] theorem gc_joiner (s : St) : (gc s).joiner = s.joiner := by rw [gc_eq]; split <;> rfl
 @[simp] theorem gc_accepted (s : St) : (gc s).accepted = s.accepted := by rw [gc_eq]; split <;> rfl
 @[simp] theorem gc_rejected (s : St) : (gc s).rejected = s.rejected := by rw [gc_eq]; split <;> rfl
 @[simp] theorem gc_started (s : St) : (gc s).started = s.started := by rw [gc_eq]; split <;> rfl
@@ -211,6 +229,7 @@ theorem clearExec_chan (s : St) (w t : Nat) :
 @[simp] theorem clearExec_conc (s : St) (w : Nat) : (clearExec s w).conc = s.conc := rfl
 @[simp] theorem clearExec_sender (s : St) (w : Nat) : (clearExec s w).sender = s.sender := rfl
 @[simp] theorem clearExec_joined (s : St) (w : Nat) : (clearExec s w).joined = s.joined := rfl
+@[simp] theorem clearExec_joiner (s : St) (w : Nat) : (clearExec s w).joiner = s.joiner := rfl
 @[simp] theorem clearExec_accepted (s : St) (w : Nat) : (clearExec s w).accepted = s.accepted := rfl
 @[simp] theorem clearExec_rejected (s : St) (w : Nat) : (clearExec s w).rejected = s.rejected := rfl
 @[simp] theorem clearExec_started (s : St) (w : Nat) : (clearExec s w).started = s.started := rfl
@@ -380,6 +399,8 @@ theorem QInv.step {s s' : St} {e : Event} (h : QInv s) (hs : step? s e = some s'
   | joinStart =>
     obtain ⟨_, rfl⟩ := joinStart?_some hs
     exact (h.same (s' := { s with sender := false }) rfl rfl).gc
+  | joinPool => obtain ⟨_, _, rfl⟩ := joinHand?_some hs; exact h.same rfl rfl
+  | joinFallbackThread => obtain ⟨_, _, rfl⟩ := joinHand?_some hs; exact h.same rfl rfl
   | exitLoop w => obtain ⟨_, _, _, _, rfl⟩ := exitLoop?_some hs; exact h.same rfl rfl
   | teardown w =>
     obtain ⟨_, _, rfl⟩ := teardown?_some hs
@@ -522,6 +543,8 @@ theorem step_view {s s' : St} {e : Event} (hq : QInv s) (h : step? s e = some s'
   | joinStart =>
     obtain ⟨_, rfl⟩ := joinStart?_some h
     exact view_gc (s := { s with sender := false }) (hq.same rfl rfl) t'
+  | joinPool => obtain ⟨_, _, rfl⟩ := joinHand?_some h; left; rfl
+  | joinFallbackThread => obtain ⟨_, _, rfl⟩ := joinHand?_some h; left; rfl
   | exitLoop w => obtain ⟨_, _, _, _, rfl⟩ := exitLoop?_some h; left; rfl
   | teardown w =>
     obtain ⟨_, _, rfl⟩ := teardown?_some h
@@ -1024,6 +1047,8 @@ theorem WInv.step {s s' : St} {e : Event} (h : WInv s) (hq : QInv s) (hs : step?
   | joinStart =>
     obtain ⟨_, rfl⟩ := joinStart?_some hs
     exact (h.same (s' := { s with sender := false }) rfl rfl rfl rfl).gc (hq.same rfl rfl)
+  | joinPool => obtain ⟨_, _, rfl⟩ := joinHand?_some hs; exact h.same rfl rfl rfl rfl
+  | joinFallbackThread => obtain ⟨_, _, rfl⟩ := joinHand?_some hs; exact h.same rfl rfl rfl rfl
   | exitLoop w => obtain ⟨_, hi, _, _, rfl⟩ := exitLoop?_some hs; exact h.exitLoop hi
   | teardown w =>
     obtain ⟨_, _, rfl⟩ := teardown?_some hs
@@ -1314,6 +1339,12 @@ theorem JInv.step {s s' : St} {e : Event} (h : JInv s) (hw : WInv s) (hs : step?
       · exact h.seqdrop
       · intro t o _; exact Or.inl rfl
     exact h1.gc
+  | joinPool =>
+    obtain ⟨_, _, rfl⟩ := joinHand?_some hs
+    exact h.same rfl rfl (fun x => x) rfl rfl rfl (fun t o hd => ⟨o, hd⟩)
+  | joinFallbackThread =>
+    obtain ⟨_, _, rfl⟩ := joinHand?_some hs
+    exact h.same rfl rfl (fun x => x) rfl rfl rfl (fun t o hd => ⟨o, hd⟩)
   | exitLoop w =>
     obtain ⟨hlt, hi, hsend, hq, rfl⟩ := exitLoop?_some hs
     exact h.setMain (w := w) (m := .draining) hlt (by simp [hi, Main.gone]) rfl rfl (fun x => x) rfl rfl rfl
@@ -1463,11 +1494,56 @@ theorem XInv.step {s s' : St} {e : Event} (h : XInv s) (hs : step? s e = some s'
   | joinStart =>
     obtain ⟨_, rfl⟩ := joinStart?_some hs
     exact (h.same (s' := { s with sender := false }) rfl rfl).gc
+  | joinPool => obtain ⟨_, _, rfl⟩ := joinHand?_some hs; exact h.same rfl rfl
+  | joinFallbackThread => obtain ⟨_, _, rfl⟩ := joinHand?_some hs; exact h.same rfl rfl
   | exitLoop w => obtain ⟨_, _, _, _, rfl⟩ := exitLoop?_some hs; exact h.same rfl rfl
   | teardown w =>
     obtain ⟨_, _, rfl⟩ := teardown?_some hs
     exact (h.same (s' := { s with main := upd s.main w .exited }) rfl rfl).clearExec w
   | joinReturn => obtain ⟨_, _, _, rfl⟩ := joinReturn?_some hs; exact h.same rfl rfl
+
+/-! ### `join` returns through the joiner closure only -/
+
+/-- `join` has returned only if the closure joining the threads was handed over -- to the pool or to the
+fallback thread -/
+def NInv (s : St) : Prop := ∀ r, s.joined = some r → s.joiner.isSome = true
+
+theorem NInv.same {s s' : St} (h : NInv s) (h1 : s'.joined = s.joined) (h2 : s'.joiner = s.joiner) : NInv s' := by
+  intro r; rw [h1, h2]; exact h r
+
+theorem NInv.step {s s' : St} {e : Event} (h : NInv s) (hs : step? s e = some s') : NInv s' := by
+  cases e with
+  | dispatch d t b =>
+    obtain ⟨_, _, _, hc | hc⟩ := dispatch?_some hs <;> (obtain ⟨_, rfl⟩ := hc; exact h.same rfl rfl)
+  | dispatchBlocking d t b ok =>
+    obtain ⟨_, _, _, hc | hc⟩ := dispatchBlocking?_some hs <;> (obtain ⟨_, rfl⟩ := hc; exact h.same rfl rfl)
+  | runBlocking t =>
+    obtain ⟨_, hc | hc⟩ := runBlocking?_some hs
+    · obtain ⟨v, _, rfl⟩ := hc; exact h.same rfl rfl
+    · obtain ⟨_, rfl⟩ := hc; exact h.same rfl rfl
+  | rxDrop t => obtain ⟨_, _, rfl⟩ := rxDrop?_some hs; exact h.same rfl rfl
+  | recv w t => obtain ⟨_, _, _, rfl⟩ := recv?_some hs; exact h.same rfl rfl
+  | poll w t =>
+    obtain ⟨_, _, hc | hc | hc | hc⟩ := poll?_some hs
+    · obtain ⟨_, rfl⟩ := hc; exact h.same rfl rfl
+    · obtain ⟨k, _, rfl⟩ := hc; exact h.same rfl rfl
+    · obtain ⟨v, _, _, rfl⟩ := hc; exact h.same rfl rfl
+    · obtain ⟨_, _, rfl⟩ := hc; exact h.same rfl rfl
+  | die w p => obtain ⟨_, _, rfl⟩ := die?_some hs; exact h.same rfl rfl
+  | reap w => obtain ⟨p, _, _, rfl⟩ := reap?_some hs; exact h.same (by simp) (by simp)
+  | joinStart => obtain ⟨_, rfl⟩ := joinStart?_some hs; exact h.same (by simp) (by simp)
+  | joinPool =>
+    obtain ⟨_, _, rfl⟩ := joinHand?_some hs
+    intro r _; rfl
+  | joinFallbackThread =>
+    obtain ⟨_, _, rfl⟩ := joinHand?_some hs
+    intro r _; rfl
+  | exitLoop w => obtain ⟨_, _, _, _, rfl⟩ := exitLoop?_some hs; exact h.same rfl rfl
+  | teardown w => obtain ⟨_, _, rfl⟩ := teardown?_some hs; exact h.same rfl rfl
+  | joinReturn =>
+    have hj := joinReturn?_joiner hs
+    obtain ⟨_, _, _, rfl⟩ := joinReturn?_some hs
+    intro r _; exact hj
 
 /-! ### all invariants together -/
 
@@ -1476,12 +1552,14 @@ structure Inv (s : St) : Prop where
   w : WInv s
   j : JInv s
   x : XInv s
+  n : NInv s
 
 theorem Inv.init (nw : Nat) (conc : Bool) : Inv (init nw conc) :=
-  ⟨TInv.init nw conc, WInv.init nw conc, JInv.init nw conc, by intro t w; simp [Compio.Dispatcher.init, widx]⟩
+  ⟨TInv.init nw conc, WInv.init nw conc, JInv.init nw conc, by intro t w; simp [Compio.Dispatcher.init, widx],
+   by intro r; simp [Compio.Dispatcher.init]⟩
 
 theorem Inv.step {s s' : St} {e : Event} (h : Inv s) (hs : step? s e = some s') : Inv s' :=
-  ⟨h.t.step hs, h.w.step h.t.q hs, h.j.step h.w hs, h.x.step hs⟩
+  ⟨h.t.step hs, h.w.step h.t.q hs, h.j.step h.w hs, h.x.step hs, h.n.step hs⟩
 
 theorem Reachable.inv {nw : Nat} {conc : Bool} {s : St} (h : Reachable nw conc s) : Inv s := by
   obtain ⟨evs, h⟩ := h
@@ -1512,6 +1590,8 @@ theorem Reachable.nw_conc {nw : Nat} {conc : Bool} {s : St} (h : Reachable nw co
   | die w p => obtain ⟨_, _, rfl⟩ := die?_some hs; exact hp
   | reap w => obtain ⟨p, _, _, rfl⟩ := reap?_some hs; simpa using hp
   | joinStart => obtain ⟨_, rfl⟩ := joinStart?_some hs; simpa using hp
+  | joinPool => obtain ⟨_, _, rfl⟩ := joinHand?_some hs; exact hp
+  | joinFallbackThread => obtain ⟨_, _, rfl⟩ := joinHand?_some hs; exact hp
   | exitLoop w => obtain ⟨_, _, _, _, rfl⟩ := exitLoop?_some hs; exact hp
   | teardown w => obtain ⟨_, _, rfl⟩ := teardown?_some hs; exact hp
   | joinReturn => obtain ⟨_, _, _, rfl⟩ := joinReturn?_some hs; exact hp
